@@ -182,7 +182,7 @@ class Run:
         Returns (summed JUDGED counters, list of verdict files, directory)."""
         d = self.sub(name)
         nlines = count_lines(resfile)
-        k = max(1, min(NPROC, (nlines + unit - 1) // unit))
+        k = max(1, min(NPROC, 12, (nlines + unit - 1) // unit))      # 12 JVMs x 3 GB heap stay well inside 62 GB
         parts = [os.path.join(d, "part%d" % i) for i in range(k)]
         for pd in parts:
             os.makedirs(pd, exist_ok=True)
@@ -196,7 +196,7 @@ class Run:
             os.remove(resfile)
         cfg = ("SPECIFICATION Spec\nCONSTANTS\n  ResFile = \"res.ndjson\"\n  VerdictFile = \"verdicts.ndjson\"\n"
                "  Prop = \"%s\"\n  Shards = 1\nINVARIANT Report\nCHECK_DEADLOCK FALSE\n" % prop)
-        env = dict(os.environ, JAVA_TOOL_OPTIONS="-Xss512m -Xmn512m -Xmx%dg" % max(3, min(12, 48 // k)))
+        env = dict(os.environ, JAVA_TOOL_OPTIONS="-Xss512m -Xmn512m -Xmx%dg" % max(3, min(12, 40 // k)))
         procs = []
         t = time.time()
         for pd in parts:
